@@ -203,7 +203,10 @@ fn run(t: &Tape, want_desc: bool) -> CaseResult {
         let mut base = w.fork();
         let mut current_owner = original_owner.clone();
         if transferred {
-            let rec = base.exec(Step { sender: original_owner.clone(), call: Call::Factory { msg: FactoryExec::UpdateConfig { owner: Some(new_owner.clone()), token_code_id: None, pair_code_id: None } }, funds: vec![] });
+            // the transfer message may or may not also (re)set the code ids
+            let tci = if s.bool() { Some(w.codes.cw20) } else { None };
+            let pci = if s.bool() { Some(w.codes.pair) } else { None };
+            let rec = base.exec(Step { sender: original_owner.clone(), call: Call::Factory { msg: FactoryExec::UpdateConfig { owner: Some(new_owner.clone()), token_code_id: tci, pair_code_id: pci } }, funds: vec![] });
             if !rec.outcome.is_ok() {
                 verdict = Verdict::Fail(format!("the owner's UpdateConfig{{owner}} failed: {}", rec.outcome.err_text()));
                 break;
